@@ -53,12 +53,8 @@ def result_kind(v):
     return "?"
 
 
-def run(rep, tier):
-    cx = Ctx(rep, "std")
+def _methods(rep, cx, ra, rb, rd, tag=""):
     F = cx.F
-    ra = rep.rule("R10.a", "set_program / set_verifier: no Err return after a behaviour-relevant field changed", floor=8)
-    rb = rep.rule("R10.b", "program / verifier fields are stored only after the relevant verifier call succeeded on that path", floor=3)
-    rd = rep.rule("R10.d", "a stored program comes with its stack-usage table and with both compiled artefacts dropped", floor=1)
     for kind in KINDS:
         for meth, nargs in (("set_program", None), ("set_verifier", None)):
             path = "%s::%s" % (kind, meth)
@@ -87,14 +83,26 @@ def run(rep, tier):
                 elif rk == "Ok":
                     n_ok += 1
                     if meth == "set_program":
-                        _check_store(rep, rb, rd, kind, s, cur, base, extra)
+                        _check_store(rep, rb, rd, kind, s, cur, base, extra, tag)
                     else:
-                        _check_verifier_store(rep, rb, kind, s, cur, base, extra)
+                        _check_verifier_store(rep, rb, kind + tag, s, cur, base, extra)
                 else:
                     unrec.append("result %r" % (v,))
-            rep.ob(ra, "%s::%s" % (kind, meth), not bad and n_err > 0 and n_ok > 0 and not unrec,
+            rep.ob(ra, "%s::%s%s" % (kind, meth, tag), not bad and n_err > 0 and n_ok > 0 and not unrec,
                    "%s::%s: fields changed on paths that return Err" % (kind, meth),
                    expected="none (on %d Err paths, %d Ok paths)" % (n_err, n_ok), found=bad or unrec or "none", sample=True)
+
+
+
+def run(rep, tier):
+    cx = Ctx(rep, "std")
+    F = cx.F
+    ra = rep.rule("R10.a", "set_program / set_verifier: no Err return after a behaviour-relevant field changed", floor=8)
+    rb = rep.rule("R10.b", "program / verifier fields are stored only after the relevant verifier call succeeded on that path", floor=3)
+    rd = rep.rule("R10.d", "a stored program comes with its stack-usage table and with both compiled artefacts dropped", floor=1)
+    _methods(rep, cx, ra, rb, rd)
+    # the Cranelift artefact exists only with the `cranelift` feature: same rules on that configuration
+    _methods(rep, Ctx(rep, "cranelift"), ra, rb, rd, tag="[cranelift]")
 
     # R10.c who may write prog / verifier
     rc = rep.rule("R10.c", "only new / set_program / set_verifier write the program and verifier fields", floor=2)
@@ -154,7 +162,7 @@ def run(rep, tier):
     rep.assume("helpers replaced after JIT compilation are a documented limitation outside the statement")
 
 
-def _check_store(rep, rb, rd, kind, s, cur, base, extra):
+def _check_store(rep, rb, rd, kind, s, cur, base, extra, tag=""):
     """Ok path of set_program: prog field == Some(new program), verified on this path by the verifier in force"""
     progs = {k: v for k, v in cur.items() if k.split(".")[-1] == "prog" and v != base.get(k)}
     newp = extra[0]
@@ -165,7 +173,7 @@ def _check_store(rep, rb, rd, kind, s, cur, base, extra):
         calls = [e for e in s.effects if e[0] == "call" and e[1] == "indirect" and e[2] == vf and e[3] and e[3][0] == newp]
         okc = [c for c in s.conds if isinstance(c, tuple) and c[0] == "call" and c[1] == "is_ok"]
         ok_b = v == symex.some(newp) and len(calls) >= 1 and bool(okc)
-    rep.ob(rb, "%s::set_program" % kind, bool(progs) and ok_b,
+    rep.ob(rb, "%s::set_program%s" % (kind, tag), bool(progs) and ok_b,
            "%s::set_program Ok path stores Some(new program) after the verifier in force accepted it" % kind,
            expected="prog := Some(p), call (self.verifier)(p) with is_ok in the path condition", found=sorted(progs))
     pre = [k[:-4] for k in progs]
@@ -180,8 +188,38 @@ def _check_store(rep, rb, rd, kind, s, cur, base, extra):
             if (p + f) in cur and cur[p + f] != symex.NONE:
                 good = False
                 why.append("%s not dropped" % f)
-    rep.ob(rd, "%s::set_program" % kind, good, "%s::set_program Ok path: paired writes" % kind,
+    rep.ob(rd, "%s::set_program%s" % (kind, tag), good, "%s::set_program Ok path: paired writes" % kind,
            expected="stack_usage := Some(..), jit := None (and cranelift_prog := None when present)", found=why or "paired")
+    if kind == "EbpfVmFixedMbuff" and not tag:
+        _check_fresh_buffer(rep, s, cur, base, extra)
+
+
+def _check_fresh_buffer(rep, s, cur, base, extra):
+    """R10.g: a reloaded fixed-mbuff VM starts from a zeroed metadata buffer and the new offsets, like a
+    fresh one: nothing written by earlier executions (the packet pointers) survives the reload"""
+    rg = rep.rule("R10.g", "fixed-mbuff set_program: metadata buffer replaced by a fresh zeroed vector, offsets replaced by the new ones", floor=1)
+    why = []
+    buf = cur.get("mbuff.buffer")
+    fresh = [e for e in s.effects if e[0] == "call" and e[1] == "core::vec::from_elem" and e[2][0] == T.K(8, 0)]
+    def on_buffer(e):
+        return "'buffer'" in repr(e[2][0]) and "'mbuff'" in repr(e[2][0])
+    cleared = [i for i, e in enumerate(s.effects) if e[0] == "call" and isinstance(e[1], str) and
+               (e[1].endswith("Vec<T, A>::clear") or (e[1].endswith("Vec<T, A>::truncate") and e[2][1] == T.K(64, 0))) and on_buffer(e)]
+    resized = [i for i, e in enumerate(s.effects) if e[0] == "call" and isinstance(e[1], str) and e[1].endswith("Vec<T, A>::resize")
+               and on_buffer(e) and e[2][2] == T.K(8, 0)]
+    idiom_a = buf is not None and buf != base.get("mbuff.buffer") and any(e[3] == buf for e in fresh)
+    idiom_b = bool(cleared) and bool(resized) and min(cleared) < min(resized)
+    if not (idiom_a or idiom_b):
+        why.append("buffer is not a fresh zeroed vector (vec![0; n], or clear() followed by resize(n, 0))")
+    others = [e[1] for e in s.effects if e[0] == "call" and isinstance(e[1], str) and "Vec<T, A>::" in e[1] and on_buffer(e)
+              and not e[1].endswith(("::clear", "::truncate", "::resize", "::len"))]
+    if others:
+        why.append("other buffer operations: %s" % sorted(set(others)))
+    for f, a in (("mbuff.data_offset", extra[1] if len(extra) > 1 else None), ("mbuff.data_end_offset", extra[2] if len(extra) > 2 else None)):
+        if a is None or cur.get(f) != a:
+            why.append("%s is not the new argument" % f)
+    rep.ob(rg, "EbpfVmFixedMbuff::set_program", not why, "EbpfVmFixedMbuff::set_program Ok path: metadata buffer and offsets",
+           expected="buffer := vec![0; len], data_offset / data_end_offset := arguments", found=why or "fresh")
 
 
 def _check_verifier_store(rep, rb, kind, s, cur, base, extra):
